@@ -56,11 +56,11 @@ def asm_op(case):
             [ent_spec(m) for m in case["mods"]])
 
 
-def gen_wellformed(rng, enz, nmods=None):
+def gen_wellformed(rng, enz, nmods=None, closing=None):
     """a well-formed assembly (C01's input space): vector + chain, every plasmid with exactly the two sites,
     at a random rotation, modules in random argument order; returns the case and the expected product"""
     nmods = nmods or rng.randint(1, 5)
-    g = gen.gen_assembly(rng, enz, nmods)
+    g = gen.gen_assembly(rng, enz, nmods, closing=closing)
     if g is None:
         return None
     (vw, vd), mods, expected = g
